@@ -238,6 +238,8 @@ def run(ctx):
             continue
         # iterator types of a sequence collection operate on it too
         n_b += check_sequence_fn(ctx, prog, fn)
+    for fn in seq_helpers(prog).values():
+        n_b += check_sequence_fn(ctx, prog, fn)
     for fn in prog.fns.values():
         if fn.self_adt and fn.self_adt not in prog.list_adts and not fn.is_closure and fn.family == 'seg' and fn.self_adt not in prog.adts.get('', {}):
             if fn.self_adt.endswith('Iterator') and 'tree' in fn.module:
@@ -293,6 +295,30 @@ def visible_mutations(prog, fn):
     return out
 
 
+def seq_helpers(prog):
+    """functions outside the sequence types that are handed a sequence's storage (`&mut Vec<..>` / `&mut [..]` parameter, called -
+    transitively - from a method of a sequence type): they mutate that sequence on its behalf"""
+    if 'seq_helpers' in prog._summ_cache:
+        return prog._summ_cache['seq_helpers']
+    out = {}
+    work = [f for f in prog.fns.values() if f.self_adt in prog.list_adts and not f.is_closure and f.info.get('mir')]
+    seen = set()
+    while work:
+        f = work.pop()
+        if f.path in seen:
+            continue
+        seen.add(f.path)
+        for c, t in prog.callees(f):
+            if t.is_closure or t.self_adt in prog.list_adts or not t.info.get('mir') or t.path in out:
+                continue
+            tys = [(t.body.locals[i]['ty'] or '') for i in range(1, t.body.arg_count + 1)]
+            if any(ty.startswith('&mut') and ('Vec<' in ty or '[' in ty) for ty in tys) and t.self_adt is None:
+                out[t.path] = t
+                work.append(t)
+    prog._summ_cache['seq_helpers'] = out
+    return out
+
+
 def fn_visible_mutation(prog, fn, _stack=None):
     key = ('vismut', fn.path)
     if key in prog._summ_cache:
@@ -301,7 +327,7 @@ def fn_visible_mutation(prog, fn, _stack=None):
     if fn.path in _stack:
         return False
     prog._summ_cache[key] = False
-    r = any(m[1] != 'cache store' for m in visible_mutations(prog, fn)) if (fn.self_adt in prog.list_adts) else False      # (a purge that refreshes the cache changes nothing a caller can see)
+    r = any(m[1] != 'cache store' for m in visible_mutations(prog, fn)) if (fn.self_adt in prog.list_adts or fn.path in seq_helpers(prog)) else False      # (a purge that refreshes the cache changes nothing a caller can see)
     prog._summ_cache[key] = r
     return r
 
